@@ -99,13 +99,13 @@ Qed.
 
 Lemma check_depth_spec : forall p l d,
   check_depth p l d =
-  of_verdict p VMaxDepth (effective_depth l d) (match l_max_depth l with Some x => x | None => 0 end) (spec_depth_verdict l d).
+  of_verdict p VMaxDepth (effective_depth l p d) (match l_max_depth l with Some x => x | None => 0 end) (spec_depth_verdict l p d).
 Proof.
   intros. unfold check_depth, spec_depth_verdict. destruct (l_max_depth l) as [limit|]; [|reflexivity].
   destruct (limit =? UNLIMITED); [reflexivity|].
-  destruct (limit <? effective_depth l d); [reflexivity|].
+  destruct (limit <? effective_depth l p d); [reflexivity|].
   unfold pct_point, calc_warn_limit.
-  destruct (l_warn_threshold l); destruct (_ <? effective_depth l d); reflexivity.
+  destruct (l_warn_threshold l); destruct (_ <? effective_depth l p d); reflexivity.
 Qed.
 
 Lemma check_dir_spec : forall l p s, check_dir l p s = spec_check_dir l p s.
@@ -164,18 +164,18 @@ Proof.
   - subst. simpl. destruct (spec_warn_reached 0 0 abs pct gl); discriminate.
 Qed.
 
-Lemma unlimited_disables : forall count abs pct gl l d,
+Lemma unlimited_disables : forall count abs pct gl l p d,
   spec_verdict count (Some UNLIMITED) abs pct gl = Pass /\ spec_verdict count None abs pct gl = Pass /\
-  (l_max_depth l = Some UNLIMITED \/ l_max_depth l = None -> spec_depth_verdict l d = Pass).
+  (l_max_depth l = Some UNLIMITED \/ l_max_depth l = None -> spec_depth_verdict l p d = Pass).
 Proof.
   intros. repeat split; try reflexivity.
   intros [H|H]; unfold spec_depth_verdict; rewrite H; reflexivity.
 Qed.
 
-Lemma depth_fail_iff : forall l d,
-  spec_depth_verdict l d = Fail <->
+Lemma depth_fail_iff : forall l p d,
+  spec_depth_verdict l p d = Fail <->
   exists limit, l_max_depth l = Some limit /\ limit <> UNLIMITED /\
-    limit < (if l_relative l then Z.max 0 (d - l_base_depth l) else d).
+    limit < (if l_relative l then Z.max 0 (norm_len p - l_base_depth l) else d).
 Proof.
   intros. unfold spec_depth_verdict, effective_depth. split.
   - destruct (l_max_depth l) as [limit|]; [|discriminate].
@@ -291,3 +291,48 @@ Lemma explain_same_limits : forall cfg scope,
   ex_max_depth (explain cfg scope) = l_max_depth (resolve_limits cfg scope) /\
   ex_matched (explain cfg scope) = option_map fst (last_match cfg scope).
 Proof. intros. repeat split; try reflexivity. apply explain_index_last_match. Qed.
+
+(* ---------- relative depth is a function of the directory path, not of the scan root (fixes/D47) ---------- *)
+Lemma relative_depth_root_independent : forall l p d1 d2,
+  l_relative l = true -> effective_depth l p d1 = effective_depth l p d2.
+Proof. intros l p d1 d2 H. unfold effective_depth. rewrite H. reflexivity. Qed.
+
+Lemma norm_len_cons : forall x q, norm_len (x :: q) = (if is_curdir x then 0 else 1) + norm_len q.
+Proof.
+  intros. unfold norm_len. cbn [filter]. destruct (is_curdir x); cbn [negb length].
+  - lia.
+  - rewrite Nat2Z.inj_succ. lia.
+Qed.
+
+(* every entry strictly below the root carries a real name (a file system has no entry named dot) *)
+Fixpoint proper_below (t : tree) : bool :=
+  match t with
+  | Dir _ _ ch => forallb (fun x => negb (is_curdir (tname x)) && proper_below x) ch
+  | _ => true
+  end.
+
+(* the number of components of the normalised path of a walked entry is its distance from the scan root plus the
+   number of components of the scan root itself: what the walker reports as depth and what the relative
+   depth counts differ by a constant of the walk, the position of the scan root below the project root *)
+Lemma entries_norm_len : forall t pp a b d e,
+  proper_below t = true -> In e (entries_aux pp a b d t) ->
+  norm_len (e_path e) - e_depth e = norm_len (tname t :: pp) - d.
+Proof.
+  induction t as [n c|n c|n c ch IH] using tree_ind'; intros pp a b d e Hp Hin; simpl in Hin.
+  - destruct (c_skip c); simpl in Hin; [contradiction|]. destruct Hin as [<-|[]]. reflexivity.
+  - destruct (c_skip c); simpl in Hin; [contradiction|]. destruct Hin as [<-|[]]. reflexivity.
+  - destruct (pruned_dir c); simpl in Hin; [contradiction|]. destruct Hin as [<-|Hin]. reflexivity.
+    apply in_flat_map in Hin. destruct Hin as [x [Hx He]].
+    rewrite Forall_forall in IH. simpl in Hp. rewrite forallb_forall in Hp.
+    specialize (Hp x Hx). apply andb_true_iff in Hp. destruct Hp as [Hn Hb].
+    rewrite (IH x Hx _ _ _ _ _ Hb He). cbn [tname].
+    rewrite (norm_len_cons (tname x)). apply negb_true_iff in Hn. rewrite Hn. lia.
+Qed.
+
+Lemma walk_norm_len : forall rp rl t e,
+  proper_below t = true -> In e (entries rp rl t) ->
+  norm_len (e_path e) = e_depth e + norm_len [tname t].
+Proof.
+  intros rp rl t e Hp Hin. unfold entries in Hin.
+  pose proof (entries_norm_len t [] rp rl 0 e Hp Hin) as H. lia.
+Qed.
